@@ -15,6 +15,7 @@ def run(tier: str) -> int:
     rr.shuffle(scs)
     cap = 4000 if tier == "quick" else 50000
     scns = [{"id": f"m{i}", "objs": s["objs"], "tps": s["tps"], "svs": s["svs"], "variant": i} for i, s in enumerate(scs[:cap])]
+    scns += drv.pair_scenarios()
     recs = pmap(drv.exec_doc, scns)
     hows = ["built", "rated", "stacked", "full_ln", "OsuToQua", "SMToQua", "BMSToQua", "O2JToQua"]
     hists = [[], ["rate"], ["filter"], ["sort_rev"], ["stack_write"], ["append"]]
